@@ -8,7 +8,7 @@ TV   Tree_Trace on trees the real parser returns for the repository corpus (both
      results of unwrap_node!/unwrap_locate! for four kind sets, get_str, get_str_trim, Locate::try_from.
 """
 import random, json
-import vlib, corpus, treecheck
+import vlib, corpus, treecheck, svgen
 
 
 def run(tier, seed):
@@ -21,6 +21,10 @@ def run(tier, seed):
     cor = corpus.parser_corpus()
     rng.shuffle(cor)
     cor = cor[: (220 if quick else len(cor))]
+    import c02
+    sw = c02.class_sweep(rng)
+    for (st, b, ch, note) in [x for x in sw if (not quick) or x[3].endswith('/0')]:
+        cor.append({"kind": "sv", "text": c02.build_case("x", st, b, ch)["text"], "src": "grammar-sweep"})
     hcases = []
     meta = {}
     for i, x in enumerate(cor):
@@ -37,6 +41,9 @@ def run(tier, seed):
         r0 = res["results"][0]
         if r0.get("outcome") != "ok":
             skipped += 1
+            if r0.get("outcome") != "err":
+                # a panic while iterating / probing the tree is data (e.g. the adjacency assertion of Locate::try_from)
+                v.violation("traversal of the tree did not return: %s %s; source %r" % (r0.get("outcome"), str(r0.get("msg"))[:200], meta[str(h["id"])]["text"][:200]), meta[str(h["id"])])
             continue
         rec = treecheck.tree_record(h["id"], r0, "strict")
         if rec is None:
